@@ -14,6 +14,7 @@ type ChanObj struct {
 	Cap    int
 	Closed bool
 	Elem   types.Type
+	Tick   bool // a time.After channel: taking its tick lets (simulated) time pass
 }
 type VChan struct{ C *ChanObj }
 
@@ -27,6 +28,136 @@ func (e *Exec) chanRecv(c *ChanObj) (Value, bool) {
 		return v, true
 	}
 	return zero(c.Elem), false
+}
+
+// ---- cooperative goroutines (sym.RunGoroutines) ----
+//
+// Each body runs on its own Go goroutine of the executor, but only one runs at a time: a body
+// runs until it blocks on a channel operation (or takes a time.After tick), then parks and the
+// scheduler (the RunGoroutines intrinsic, on the main interpreter goroutine) resumes the next
+// one. When every body is parked without progress the scripted environment gets a turn.
+
+type coro struct {
+	resume   chan bool // true = run, false = die
+	yielded  chan struct{}
+	done     bool
+	panicVal any
+	depth    int
+	fnStack  []*ssa.Function
+}
+
+type coroDie struct{}
+
+// yield parks the running body until the scheduler resumes it.
+func (e *Exec) yield() {
+	c := e.curCoro
+	c.depth, c.fnStack = e.depth, e.fnStack
+	c.yielded <- struct{}{}
+	if ok := <-c.resume; !ok {
+		panic(coroDie{})
+	}
+	e.curCoro = c
+	e.depth, e.fnStack = c.depth, c.fnStack
+}
+
+// blockedStep is called when the running code cannot proceed with a channel operation; it
+// returns when it is worth re-examining the operation, or ends the path as BLOCKED.
+func (e *Exec) blockedStep(what string) {
+	if e.curCoro != nil {
+		e.yield()
+		return
+	}
+	if !e.envStep() {
+		panic(pathEnd{"BLOCKED " + what})
+	}
+}
+
+func (e *Exec) runGoroutines(env *VFunc, bodies []VFunc) bool {
+	if e.curCoro != nil || len(e.coros) > 0 {
+		e.fail("nested RunGoroutines")
+	}
+	d0, s0 := e.depth, e.fnStack
+	var cs []*coro
+	for _, b := range bodies {
+		b := b
+		c := &coro{resume: make(chan bool), yielded: make(chan struct{})}
+		cs = append(cs, c)
+		go func() {
+			defer func() {
+				if r := recover(); r != nil {
+					if _, die := r.(coroDie); !die {
+						c.panicVal = r
+					}
+				}
+				c.done = true
+				c.yielded <- struct{}{}
+			}()
+			if ok := <-c.resume; !ok {
+				panic(coroDie{})
+			}
+			e.curCoro = c
+			e.depth, e.fnStack = 0, nil
+			e.callClosure(b, nil)
+		}()
+	}
+	e.coros = cs
+	defer func() {
+		// path end or return: stop every parked body
+		e.curCoro = nil
+		for _, c := range cs {
+			if !c.done {
+				c.resume <- false
+				<-c.yielded
+			}
+		}
+		e.coros = nil
+		e.depth, e.fnStack = d0, s0
+	}()
+	idle := 0
+	for {
+		progress, live := false, false
+		for _, c := range cs {
+			if c.done {
+				continue
+			}
+			before := e.progress
+			c.resume <- true
+			<-c.yielded
+			e.curCoro = nil
+			e.depth, e.fnStack = d0, s0
+			if c.panicVal != nil {
+				pv := c.panicVal
+				c.panicVal = nil
+				panic(pv)
+			}
+			if e.progress != before || c.done {
+				progress = true
+			}
+			if !c.done {
+				live = true
+			}
+		}
+		if !live {
+			return false
+		}
+		if progress {
+			idle = 0
+			continue
+		}
+		acted := false
+		if env != nil {
+			acted = e.decide(e.callClosure(*env, nil).(VBool).T)
+		}
+		if acted {
+			idle = 0
+			continue
+		}
+		// one more round lets pollers observe the final state; then everything is blocked
+		if idle++; idle > 1 {
+			e.blocked++
+			return true
+		}
+	}
 }
 
 // envStep gives the scripted environment of RunWithEnv a turn when the goroutine body under
@@ -56,16 +187,15 @@ func (e *Exec) doSelect(fr *frame, in *ssa.Select) Value {
 				ready = append(ready, i)
 			}
 		}
-		if len(ready) > 0 || !in.Blocking || !e.envStep() {
+		if len(ready) > 0 || !in.Blocking {
 			break
 		}
+		e.blockedStep("in select at " + fr.fn.String())
 	}
 	idx := -1
 	switch {
-	case len(ready) == 0 && !in.Blocking:
-		idx = -1
 	case len(ready) == 0:
-		panic(pathEnd{"BLOCKED in select at " + fr.fn.String()})
+		idx = -1
 	default:
 		// nondeterministic choice among ready cases: fork via fresh booleans
 		idx = ready[len(ready)-1]
@@ -74,6 +204,24 @@ func (e *Exec) doSelect(fr *frame, in *ssa.Select) Value {
 			if e.decide(e.fresh(sprintf("select_%d", e.nondet), SBool)) {
 				idx = r
 				break
+			}
+		}
+	}
+	if idx >= 0 {
+		if ch, _ := e.val(fr, in.States[idx].Chan).(VChan); ch.C == nil || !ch.C.Tick {
+			e.progress++
+		} else if e.curCoro != nil {
+			e.yield() // a poller: time passes, the other goroutines run
+		}
+	}
+	if idx >= 0 && e.curCoro == nil && len(e.envStack) > 0 && !e.envRunning {
+		// polling: taking a time.After tick lets time pass, so the scripted environment gets a
+		// turn; polling on with an environment that has nothing left to do is a blocked path
+		if ch, _ := e.val(fr, in.States[idx].Chan).(VChan); ch.C != nil && ch.C.Tick {
+			if e.envStep() {
+				e.idleTicks = 0
+			} else if e.idleTicks++; e.idleTicks > 2 {
+				panic(pathEnd{"BLOCKED polling in " + fr.fn.String()})
 			}
 		}
 	}
@@ -198,7 +346,11 @@ func init() {
 		ch.Q = nil
 		return VBool{BoolC(active)}
 	}
-	intrinsics["time.After"] = func(e *Exec, a []Value) Value { return VChan{newTick(e)} }
+	intrinsics["time.After"] = func(e *Exec, a []Value) Value {
+		c := newTick(e)
+		c.Tick = true
+		return VChan{c}
+	}
 	intrinsics["time.Now"] = func(e *Exec, a []Value) Value { return zero(timeType) }
 	clock := func(e *Exec, a []Value) Value {
 		e.nondet++
